@@ -33,6 +33,7 @@ namespace
     public:
         const PlanSpace *ps;
         double a, fx, fy;
+        double ridgeA = 0, ridgeX = 0, ridgeW = 1;  // optional costly ridge: cost is far from linear along a segment crossing it
         FieldCost(const ob::SpaceInformationPtr &si, const PlanSpace *p, double a_, double fx_, double fy_)
           : ob::StateCostIntegralObjective(si, true), ps(p), a(a_), fx(fx_), fy(fy_)
         {
@@ -41,7 +42,8 @@ namespace
         {
             double x, y;
             ps->xy(s, x, y);
-            return ob::Cost(1.0 + a * (1 + std::sin(fx * x) * std::cos(fy * y)));
+            double u = (x - ridgeX) / ridgeW;
+            return ob::Cost(1.0 + a * (1 + std::sin(fx * x) * std::cos(fy * y)) + ridgeA * std::exp(-u * u));
         }
     };
 
@@ -160,6 +162,7 @@ void vf::run_case(Src &s, Ctx &c)
         endsAtGoal = true;
     }
     const size_t n0 = path.getStateCount();
+    VCHECK(c, path.check(), "C17/harness-input-not-valid", "harness bug: the generated input path does not pass the library's own check()");
     auto image = [&](const ob::State *st)
     {
         std::string b(P->ps.space->getSerializationLength(), '\0');
@@ -171,17 +174,52 @@ void vf::run_case(Src &s, Ctx &c)
     for (size_t i = 0; i < n0; ++i)
         imgs.push_back(image(path.getState(i)));
     // objective
-    int objKind = (int)s.weighted({5, 2, 2});
+    size_t routine = s.weighted({3, 3, 3, 2, 2, 2, 4, 3, 1, 2, 2, 1, 2});
+    const bool goalAware = routine == 6 || routine == 7 || routine == 8;
+    int objKind = goalAware ? (int)s.weighted({3, 5, 1}) : (int)s.weighted({5, 2, 2});
     ob::OptimizationObjectivePtr obj;
     if (objKind == 0)
         obj = std::make_shared<ob::PathLengthOptimizationObjective>(si);
     else if (objKind == 1)
-        obj = std::make_shared<FieldCost>(si, &P->ps, s.real(0.2, 3), s.real(0.3, 2), s.real(0.3, 2));
+    {
+        auto fc = std::make_shared<FieldCost>(si, &P->ps, s.real(0.2, 3), s.real(0.3, 2), s.real(0.3, 2));
+        if (s.flag())
+        {
+            fc->ridgeA = s.real(2, 25);
+            fc->ridgeX = s.real(P->ps.lo, P->ps.hi);
+            fc->ridgeW = s.real(0.3, 1.5);
+        }
+        obj = fc;
+    }
     else
         obj = std::make_shared<ob::MaximizeMinClearanceObjective>(si);
     const char *objN[] = {"length", "state-cost-integral", "max-min-clearance"};
-    bool withGoal = endsAtGoal && s.flag();
-    og::PathSimplifier ps(si, withGoal ? P->pdef->getGoal() : ob::GoalPtr(), obj);
+    bool withGoal = endsAtGoal && (goalAware || s.flag());
+    ob::GoalPtr goalForSimplifier;
+    if (withGoal)
+    {
+        goalForSimplifier = P->pdef->getGoal();
+        if (goalAware && s.chance(170))
+        {
+            // a sampleable goal with several states: the path's end plus up to 3 other valid states near it
+            auto gs = std::make_shared<ob::GoalStates>(si);
+            gs->addState(path.getState(path.getStateCount() - 1));
+            double ex, ey;
+            P->ps.xy(path.getState(path.getStateCount() - 1), ex, ey);
+            int extra = s.in(1, 3);
+            for (int k = 0; k < extra; ++k)
+            {
+                double x = std::min(P->ps.hi - 1e-6, std::max(P->ps.lo + 1e-6, ex + s.real(-3, 3))), y = std::min(P->ps.hi - 1e-6, std::max(P->ps.lo + 1e-6, ey + s.real(-3, 3)));
+                P->ps.makeState(s, scratch, x, y);
+                if (oracleValid(P->ps, P->env, scratch))
+                    gs->addState(scratch);
+            }
+            gs->setThreshold(P->threshold);
+            goalForSimplifier = gs;
+            c.count("goal:multi-state(" + std::to_string(gs->getStateCount()) + ")");
+        }
+    }
+    og::PathSimplifier ps(si, goalForSimplifier, obj);
     // Discretisation-independent cost: the integral and min-clearance objectives evaluate a motion at the validity resolution, so merely
     // inserting vertices changes their value by quadrature noise. The harness therefore re-evaluates both paths on one fine uniform grid.
     auto denseCost = [&](const og::PathGeometric &pp) -> double
@@ -215,7 +253,6 @@ void vf::run_case(Src &s, Ctx &c)
     const double len0 = path.length();
     const ob::Cost cost0 = path.cost(obj);
     const double dense0 = denseCost(path);
-    size_t routine = s.weighted({3, 3, 3, 2, 2, 2, 2, 3, 1, 2, 2, 1, 2});
     static const char *rn[] = {"reduceVertices", "partialShortcutPath", "ropeShortcutPath", "collapseCloseVertices", "smoothBSpline", "perturbPath", "findBetterGoal",
                                "simplify", "simplifyMax", "interpolate()", "interpolate(count)", "subdivide", "PathHybridization"};
     c.note("%s\n input: %s, %zu states, length %.6g, ends-at-goal=%d, objective=%s, routine=%s", P->str().c_str(), shapeName[shape], n0, len0, (int)endsAtGoal, objN[objKind],
@@ -349,7 +386,7 @@ void vf::run_case(Src &s, Ctx &c)
     VCHECK(c, image(out.getState(0)) == imgFirst, "C17/first-state" + rkey, "%s changed the first state of the path", rn[routine]);
     if (image(out.getState(n1 - 1)) != imgLast)
     {
-        bool okEnd = endMayMove && P->pdef->getGoal()->isSatisfied(out.getState(n1 - 1));
+        bool okEnd = endMayMove && goalForSimplifier && goalForSimplifier->isSatisfied(out.getState(n1 - 1));
         VCHECK(c, okEnd, "C17/last-state" + rkey, "%s changed the last state of the path%s", rn[routine], endMayMove ? " to a state that does not satisfy the goal" : "");
     }
     // validity of what was introduced
